@@ -1,4 +1,5 @@
 """C19 - Controllers, references and prototypes are faithful shorthands (DESIGN 3/C19)."""
+import abc
 import collections
 from fractions import Fraction
 
@@ -124,6 +125,13 @@ for _i, _c in enumerate(COMP):
 for _i, _p in enumerate(PROC):
     setattr(Proto, 'pref%d' % _i, desper.ProcessorReference(_p))
 
+class VirtualBase(abc.ABC):
+    """an abstract base the component classes are only REGISTERED with (virtual subclasses)"""
+
+
+VirtualBase.register(CA)
+QTYPES = COMP + [VirtualBase, desper.ControllerProtocol, desper.EventHandler]
+
 SHORTHANDS = ['add_component', 'remove_component', 'has_component', 'get_component', 'get_components', 'delete',
               'ref_get', 'ref_set', 'ref_del', 'pref_get', 'pref_set', 'pref_del']
 
@@ -140,7 +148,7 @@ def strategy():
     op = st.tuples(st.integers(0, 11), worldops.packed(16 ** 3)).map(decode_op)
     twin = st.fixed_dictionaries({
         'ops': worldops.chunked(op, 24), 'ctl_entity': st.integers(0, 15), 'variant': st.integers(0, 2),
-        'shorthand': st.integers(0, len(SHORTHANDS) - 1), 'type': st.integers(0, 4), 'after': st.integers(0, 2),
+        'shorthand': st.integers(0, len(SHORTHANDS) - 1), 'type': st.integers(0, 7), 'after': st.integers(0, 2),
         'valmode': st.integers(0, 2), 'prelife': st.integers(0, 2)})
     proto = st.fixed_dictionaries({
         'types': st.lists(st.integers(0, 5), min_size=1, max_size=5),
@@ -287,6 +295,10 @@ def twin_part(spec, facts):
         user.entity, user.world = ent, A.world
     tix = spec['type'] % len(COMP)
     T = COMP[tix]
+    # query types of the three query shorthands: also types related to the components only VIRTUALLY (an ABC with a
+    # registered class, runtime-checkable protocols of the library itself) - whatever the World answers for them,
+    # the shorthand answers the same
+    QT = QTYPES[spec['type'] % len(QTYPES)]
     pix = spec['type'] % len(PROC)
     P = PROC[pix]
     wB = B.world
@@ -323,11 +335,15 @@ def twin_part(spec, facts):
         ra = call(lambda: user.remove_component(T) if is_ctl else desper.remove_component(user, T))
         rb = call(lambda: wB.remove_component(ent, T))
     elif sh == 'has_component':
-        ra = call(lambda: user.has_component(T) if is_ctl else desper.has_component(user, T))
-        rb = call(lambda: wB.has_component(ent, T))
+        ra = call(lambda: user.has_component(QT) if is_ctl else desper.has_component(user, QT))
+        rb = call(lambda: wB.has_component(ent, QT))
+        if QT not in COMP:
+            facts['virtual_query_type'] += 1
     elif sh == 'get_component':
-        ra = call(lambda: user.get_component(T) if is_ctl else desper.get_component(user, T))
-        rb = call(lambda: wB.get_component(ent, T))
+        ra = call(lambda: user.get_component(QT) if is_ctl else desper.get_component(user, QT))
+        rb = call(lambda: wB.get_component(ent, QT))
+        if QT not in COMP:
+            facts['virtual_query_type'] += 1
     elif sh == 'get_components':
         ra = call(lambda: user.get_components() if is_ctl else desper.get_components(user))
         rb = call(lambda: wB.get_components(ent))
